@@ -196,6 +196,12 @@ class ConcurrentExecutor(ABC, Generic[CallableType, ResultType]):
             "▶️ Executing concurrent operation, items: %d", len(self.executables)
         )
 
+        if not self.executables:
+            # Nothing to run. ThreadPoolExecutor rejects max_workers=0, and with a max_concurrency no task
+            # would ever set the completion event: an empty input completes at once with an empty result.
+            self.executables_with_state = []
+            return self._create_result()
+
         max_workers = self.max_concurrency or len(self.executables)
 
         self.executables_with_state = [
